@@ -9,6 +9,7 @@ of fetches the process attempted; plus non-influence (a denied target's marker c
 never appears in the built maps).
 """
 import os
+import pickle
 import shutil
 import warnings
 
@@ -19,6 +20,8 @@ from pool.pool import scratch_dir
 from checks.common import jcopy, short
 
 ALLOW = ('all', 'remote', 'local', 'sandbox', 'none')
+POST_BUILD = ('wildcard_load_namespace', 'hint_meta_namespace', 'hint_on_meta_element', 'hint_resource_outside',
+              'api_include_schema', 'api_import_schema', 'api_add_schema', 'hint_iter_errors', 'xmldocument_parse')
 MECHANISMS = ('include', 'import', 'redefine', 'override', 'chained', 'locations_arg', 'uri_mapper_dict',
               'uri_mapper_call', 'hint_iter_errors', 'hint_validate', 'fallback_absent', 'fallback_illformed',
               'fallback_404', 'fallback_timeout', 'wildcard_load_namespace', 'xmldocument_parse',
@@ -231,7 +234,9 @@ class C12(Check):
         return {'allow': a, 'mech': m, 'spell': s, 'main': main, 'slash': rng.random() < 0.5, 'version': version,
                 'relbase': relbase, 'nobase': nobase, 'emptybase': emptybase,
                 # the main source itself lies in the OTHER tree (outside the sandbox of the current directory)
-                'othertree': bool((relbase or emptybase) and main == 'path' and rng.random() < 0.5)}
+                'othertree': bool((relbase or emptybase) and main == 'path' and rng.random() < 0.5),
+                # the schema object goes through a pickle before the mechanisms that act on a built schema
+                'pickled': bool(m in POST_BUILD and rng.random() < 0.3)}
 
     # ------------------------------------------------------------------
     def run_case(self, case):
@@ -421,6 +426,16 @@ class C12(Check):
                             outcome['url'] = xmlschema.fetch_schema(doc2_path, **vkw)
                     else:
                         schema = cls(source, **kw)
+                        if case.get('pickled'):
+                            # a schema that was stored or sent to a worker stays confined as it was built (the
+                            # reads of the restore itself are fetches like any other)
+                            try:
+                                blob = pickle.dumps(schema)
+                            except Exception:
+                                counters['pickle_not_possible'] = 1   # e.g. a caller's function among the settings
+                            else:
+                                schema = pickle.loads(blob)
+                                counters['schema_restored_from_pickle'] = 1
                         if mech == 'wildcard_load_namespace':
                             # a lax wildcard meets an unknown namespace: the loader tries the locations= hints
                             outcome['errors'] = [e.reason for e in schema.iter_errors(doc_path)]
